@@ -14,16 +14,16 @@ def Out.isChanEv : Out → Bool
 
 def FrameRel (s s' : St) : Prop :=
   s'.1.chans = s.1.chans ∧ s'.1.dcQueue = s.1.dcQueue ∧ s'.1.dataChannels = s.1.dataChannels ∧
-  s'.1.dcId = s.1.dcId ∧ s'.1.isServer = s.1.isServer ∧
+  s'.1.dcId = s.1.dcId ∧ s'.1.isServer = s.1.isServer ∧ s'.1.reactions = s.1.reactions ∧
   ∃ l2, s'.2 = s.2 ++ l2 ∧ ∀ o ∈ l2, o.isChanEv = false
 
 theorem FrameRel.refl (s : St) : FrameRel s s :=
-  ⟨rfl, rfl, rfl, rfl, rfl, [], by simp, by simp⟩
+  ⟨rfl, rfl, rfl, rfl, rfl, rfl, [], by simp, by simp⟩
 
 theorem FrameRel.trans (a b c : St) (h1 : FrameRel a b) (h2 : FrameRel b c) : FrameRel a c := by
-  obtain ⟨a1, a2, a3, a4, a5, l1, a6, a7⟩ := h1
-  obtain ⟨b1, b2, b3, b4, b5, l2, b6, b7⟩ := h2
-  refine ⟨b1.trans a1, b2.trans a2, b3.trans a3, b4.trans a4, b5.trans a5, l1 ++ l2, ?_, ?_⟩
+  obtain ⟨a1, a2, a3, a4, a5, a5', l1, a6, a7⟩ := h1
+  obtain ⟨b1, b2, b3, b4, b5, b5', l2, b6, b7⟩ := h2
+  refine ⟨b1.trans a1, b2.trans a2, b3.trans a3, b4.trans a4, b5.trans a5, b5'.trans a5', l1 ++ l2, ?_, ?_⟩
   · rw [b6, a6, List.append_assoc]
   · intro o ho
     rcases List.mem_append.1 ho with h | h
@@ -38,9 +38,10 @@ abbrev Frame {α} (x : M α) : Prop := Pres frameSpec x
 /-- state update that keeps the framed fields, log extended by harmless outputs -/
 theorem FrameRel.mk' {s : St} {e' : Ep} {l2 : List Out}
     (h1 : e'.chans = s.1.chans) (h2 : e'.dcQueue = s.1.dcQueue) (h3 : e'.dataChannels = s.1.dataChannels)
-    (h4 : e'.dcId = s.1.dcId) (h5 : e'.isServer = s.1.isServer) (h6 : ∀ o ∈ l2, o.isChanEv = false) :
+    (h4 : e'.dcId = s.1.dcId) (h5 : e'.isServer = s.1.isServer) (h5' : e'.reactions = s.1.reactions)
+    (h6 : ∀ o ∈ l2, o.isChanEv = false) :
     FrameRel s (e', s.2 ++ l2) :=
-  ⟨h1, h2, h3, h4, h5, l2, rfl, h6⟩
+  ⟨h1, h2, h3, h4, h5, h5', l2, rfl, h6⟩
 
 theorem Frame.intro {α} {x : M α} (h : ∀ s, WP x (fun _ s' => FrameRel s s') s) : Frame x :=
   ⟨fun s _ => WP.mono (h s) (fun _ _ hr _ => ⟨trivial, hr⟩)⟩
@@ -61,28 +62,28 @@ theorem WP.frame {α} {x : M α} (h : Frame x) {Q} {s : St}
 
 theorem frame_modE (f : Ep → Ep) (h1 : ∀ e, (f e).chans = e.chans) (h2 : ∀ e, (f e).dcQueue = e.dcQueue)
     (h3 : ∀ e, (f e).dataChannels = e.dataChannels) (h4 : ∀ e, (f e).dcId = e.dcId)
-    (h5 : ∀ e, (f e).isServer = e.isServer) : Frame (modE f) := by
+    (h5 : ∀ e, (f e).isServer = e.isServer) (h6 : ∀ e, (f e).reactions = e.reactions) : Frame (modE f) := by
   apply Frame.intro; intro s
   simp only [WP_modE]
-  simpa using FrameRel.mk' (l2 := []) (h1 s.1) (h2 s.1) (h3 s.1) (h4 s.1) (h5 s.1) (by simp)
+  simpa using FrameRel.mk' (l2 := []) (h1 s.1) (h2 s.1) (h3 s.1) (h4 s.1) (h5 s.1) (h6 s.1) (by simp)
 
 theorem frame_emit (o : Out) (h : o.isChanEv = false) : Frame (emit o) := by
   apply Frame.intro; intro s
   simp only [WP_emit]
-  exact FrameRel.mk' rfl rfl rfl rfl rfl (by simpa using h)
+  exact FrameRel.mk' rfl rfl rfl rfl rfl rfl (by simpa using h)
 
 /-- closing a goal `FrameRel s (e', s.2 ++ …)` where `e'` is a record update of `s.1` -/
 macro "frame_rel" : tactic =>
   `(tactic| first
     | exact FrameRel.refl _
-    | (refine ⟨rfl, rfl, rfl, rfl, rfl, _, rfl, ?_⟩; simp [Out.isChanEv]; done)
-    | (refine ⟨rfl, rfl, rfl, rfl, rfl, [], ?_, ?_⟩ <;> simp <;> done))
+    | (refine ⟨rfl, rfl, rfl, rfl, rfl, rfl, _, rfl, ?_⟩; simp [Out.isChanEv]; done)
+    | (refine ⟨rfl, rfl, rfl, rfl, rfl, rfl, [], ?_, ?_⟩ <;> simp <;> done))
 
 /-- `modE`/`emit` leaves whose side conditions are closed by `rfl` -/
 macro "frame_prim" : tactic =>
   `(tactic| first
     | exact pres_of_frame (frame_emit _ rfl)
-    | exact pres_of_frame (frame_modE _ (fun _ => rfl) (fun _ => rfl) (fun _ => rfl) (fun _ => rfl) (fun _ => rfl)))
+    | exact pres_of_frame (frame_modE _ (fun _ => rfl) (fun _ => rfl) (fun _ => rfl) (fun _ => rfl) (fun _ => rfl) (fun _ => rfl)))
 macro_rules | `(tactic| pres_leaf) => `(tactic| frame_prim)
 
 theorem frame_sendChunk (c : Chunk) : Frame (sendChunk c) := by
